@@ -165,6 +165,7 @@ func B3(rc *RC) {
 		return
 	}
 	var bad []string
+	var other []string
 	for _, p := range paths {
 		q, r := "", ""
 		for _, st := range p.Steps {
@@ -181,9 +182,26 @@ func B3(rc *RC) {
 				q, r = parts[0], parts[1]
 			}
 		}
-		if q != "($a / $b)" || r != "($a % $b)" {
-			bad = append(bad, fmt.Sprintf("returns (%s, %s) on [%s], not (a / b, a %% b)", q, r, strings.Join(p.Guards, " && ")))
+		r = strings.ReplaceAll(r, "$ret0", q)
+		qOK := q == "($a / $b)"
+		rOK := r == "($a % $b)" || r == "($a - ($b * ($a / $b)))" || r == "($a - (($a / $b) * $b))"
+		// b == -1: a / -1 is -a (wrapping at the minimum) and a % -1 is 0
+		if len(p.Guards) > 0 && (p.Guards[len(p.Guards)-1] == "($b == -1)" || p.Guards[len(p.Guards)-1] == "(-1 == $b)") && q == "-$a" && r == "0" {
+			qOK, rOK = true, true
 		}
+		if qOK && rOK {
+			continue
+		}
+		simple := func(x string) bool { return x == "($a / $b)" || x == "($a % $b)" || x == "($b / $a)" || x == "($b % $a)" || x == "$a" || x == "$b" || x == "0" }
+		if simple(q) && simple(r) {
+			bad = append(bad, fmt.Sprintf("returns (%s, %s) on [%s], not (a / b, a %% b)", q, r, strings.Join(p.Guards, " && ")))
+		} else {
+			other = append(other, fmt.Sprintf("returns (%s, %s) on [%s]: not one of the forms this rule can equate with (a / b, a %% b)", q, r, strings.Join(p.Guards, " && ")))
+		}
+	}
+	if len(bad) == 0 && len(other) > 0 {
+		rc.S.Undec("B3", "tensor.divmod", pos, other[0])
+		return
 	}
 	if len(bad) > 0 {
 		rc.S.Viol("B3", "tensor.divmod", pos, strings.Join(bad, "; ")).Sig = fmt.Sprint(len(bad)) + " deviating paths"
